@@ -256,3 +256,164 @@ Fixpoint run (o : owner) (s : st) (ops : list op) : st :=
   | [] => s
   | p :: r => run o (fst (step o s p)) r
   end.
+
+(* ===================================================================================== *)
+(* Part B - small state machines                                                          *)
+(* ===================================================================================== *)
+
+(* ---- AdministrativeInformation (AASd-005), base.py AdministrativeInformation -------- *)
+(* a string argument: None, a valid VersionType/RevisionType, an invalid non-empty string, "" *)
+Inductive sarg : Type := SNone | SOk (n : nat) | SBad | SEmpty.
+Definition s_none (a : sarg) : bool := match a with SNone => true | _ => false end.
+Definition s_truthy (a : sarg) : bool := match a with SNone | SEmpty => false | _ => true end.
+(* `if a is not None: check_version_type(a)` *)
+Definition s_check (a : sarg) : option err := match a with SBad | SEmpty => Some EValue | _ => None end.
+
+Record adm : Type := mkAdm { aver : sarg; arev : sarg }.
+Inductive aop : Type := SetVersion (a : sarg) | SetRevision (a : sarg).
+
+Definition astep (s : adm) (p : aop) : adm * option err :=
+  match p with
+  | SetVersion a =>                                  (* _set_version *)
+      if s_none a && negb (s_none (arev s)) then (s, Some (EAASd 5))
+      else match s_check a with
+           | Some e => (s, Some e)
+           | None => (mkAdm a (arev s), None)
+           end
+  | SetRevision a =>                                 (* _set_revision: `self.version is None and revision` *)
+      if s_none (aver s) && s_truthy a then (s, Some (EAASd 5))
+      else match s_check a with
+           | Some e => (s, Some e)
+           | None => (mkAdm (aver s) a, None)
+           end
+  end.
+
+(* __init__: self.version = version (no _revision attribute yet); self.revision = revision *)
+Definition actor (v r : sarg) : option adm * option err :=
+  match s_check v with
+  | Some e => (None, Some e)
+  | None =>
+      match astep (mkAdm v SNone) (SetRevision r) with
+      | (_, Some e) => (None, Some e)
+      | (s, None) => (Some s, None)
+      end
+  end.
+
+Fixpoint arun (s : adm) (ops : list aop) : adm :=
+  match ops with [] => s | p :: r => arun (fst (astep s p)) r end.
+
+(* ---- BasicEventElement direction / max_interval / last_update ------------------------- *)
+(* last_update: None, tzname() == "UTC", anything else (naive or another zone) *)
+Inductive upd : Type := UNone | UUtc | UOther.
+Record bee : Type := mkBee { bin : bool (* direction = INPUT *); bmax : bool (* max_interval present *); blast : upd }.
+Inductive bop : Type := SetDirection (input : bool) | SetMaxInterval (present : bool) | SetLastUpdate (u : upd).
+
+Definition bstep (s : bee) (p : bop) : bee * option err :=
+  match p with
+  | SetDirection d => if d && bmax s then (s, Some EValue) else (mkBee d (bmax s) (blast s), None)
+  | SetMaxInterval m => if m && bin s then (s, Some EValue) else (mkBee (bin s) m (blast s), None)
+  | SetLastUpdate u => match u with UOther => (s, Some EValue) | _ => (mkBee (bin s) (bmax s) u, None) end
+  end.
+
+(* __init__: max_interval = None; direction = d; ...; last_update = u; ...; max_interval = m *)
+Definition bctor (d : bool) (u : upd) (m : bool) : option bee * option err :=
+  match bstep (mkBee d false UNone) (SetLastUpdate u) with
+  | (_, Some e) => (None, Some e)
+  | (s1, None) =>
+      match bstep s1 (SetMaxInterval m) with
+      | (_, Some e) => (None, Some e)
+      | (s2, None) => (Some s2, None)
+      end
+  end.
+
+Fixpoint brun (s : bee) (ops : list bop) : bee :=
+  match ops with [] => s | p :: r => brun (fst (bstep s p)) r end.
+
+(* ---- category (AASd-090, AASd-100, NameType) ------------------------------------------------ *)
+Inductive ckind : Type := CDataElement (* Property, Range, MultiLanguageProperty, ReferenceElement *)
+                        | CFileBlob | COther (* every other Referable: Referable._set_category *).
+Inductive carg : Type := CNone | CAllowed (* CONSTANT, PARAMETER, VARIABLE *) | CValidOther (* another valid NameType *)
+                       | CEmpty | CInvalid (* a non-empty string that is not a NameType *).
+
+(* the category setter; None = stored *)
+Definition set_category (k : ckind) (a : carg) : option err :=
+  match k with
+  | COther => match a with CEmpty | CInvalid => Some EValue | _ => None end
+  | _ =>
+      match a with
+      | CEmpty => Some (EAASd 100)
+      | CNone => None
+      | CAllowed => None
+      | CValidOther => match k with CFileBlob => None | _ => Some (EAASd 90) end
+      | CInvalid => match k with CFileBlob => Some EValue | _ => Some (EAASd 90) end
+      end
+  end.
+
+(* ---- LangStringSet / ConstrainedLangStringSet --------------------------------------------- *)
+(* keys are language tags from a pool; [tag_ok k] = the tag passes _check_language_tag_constraints
+   (pool convention of the harness: ids below 3 are valid tags); an entry carries whether its
+   text satisfies the set's text constraint *)
+Definition tag_ok (k : nat) : bool := Nat.ltb k 3.
+Definition lss := list (nat * bool).
+
+Fixpoint lset (l : lss) (k : nat) (t : bool) : lss :=
+  match l with
+  | [] => [(k, t)]
+  | x :: r => if Nat.eqb (fst x) k then (k, t) :: r else x :: lset r k t
+  end.
+Fixpoint lmem (l : lss) (k : nat) : bool :=
+  match l with [] => false | x :: r => Nat.eqb (fst x) k || lmem r k end.
+Fixpoint lremove (l : lss) (k : nat) : lss :=
+  match l with
+  | [] => []
+  | x :: r => if Nat.eqb (fst x) k then r else x :: lremove r k
+  end.
+
+Inductive lop : Type :=
+| LSet (k : nat) (t : bool) | LDel (k : nat) | LClear | LPop (k : nat) | LPopItem
+| LSetDefault (k : nat) (t : bool) | LUpdate (kvs : list (nat * bool)).
+
+(* c = true: ConstrainedLangStringSet (text constraint checked first) *)
+Definition l_setitem (c : bool) (l : lss) (k : nat) (t : bool) : lss * option err :=
+  if c && negb t then (l, Some EValue)
+  else if negb (tag_ok k) then (l, Some EValue)
+  else (lset l k t, None).
+Definition l_delitem (l : lss) (k : nat) : lss * option err :=
+  if (len l =? 1) then (l, Some EKey)
+  else if lmem l k then (lremove l k, None) else (l, Some EKey).
+
+(* MutableMapping.update: one __setitem__ per pair, not atomic *)
+Fixpoint l_update_raw (c : bool) (l : lss) (kvs : list (nat * bool)) : lss * option err :=
+  match kvs with
+  | [] => (l, None)
+  | (k, t) :: r =>
+      match l_setitem c l k t with
+      | (l', None) => l_update_raw c l' r
+      | (l', Some e) => (l', Some e)
+      end
+  end.
+
+Definition lstep (c : bool) (l : lss) (p : lop) : lss * option err :=
+  match p with
+  | LSet k t => l_setitem c l k t
+  | LDel k => l_delitem l k
+  | LClear => (l, Some EKey)
+  | LPop k => if lmem l k then l_delitem l k else (l, Some EKey)     (* value = self[key]; del self[key] *)
+  | LPopItem => match l with [] => (l, Some EKey) | x :: _ => l_delitem l (fst x) end
+  | LSetDefault k t => if lmem l k then (l, None) else l_setitem c l k t
+  | LUpdate kvs =>                                  (* LangStringSet.update restores the old content on error *)
+      match l_update_raw c l kvs with
+      | (l', None) => (l', None)
+      | (_, Some e) => (l, Some e)
+      end
+  end.
+
+(* __init__(dict_) with distinct keys: non-empty, every tag checked, then (constrained) every text *)
+Definition lctor (c : bool) (kvs : list (nat * bool)) : option lss * option err :=
+  if (len kvs =? 0) then (None, Some EValue)
+  else if negb (forallb (fun e => tag_ok (fst e)) kvs) then (None, Some EValue)
+  else if c && negb (forallb (fun e => snd e) kvs) then (None, Some EValue)
+  else (Some kvs, None).
+
+Fixpoint lrun (c : bool) (l : lss) (ops : list lop) : lss :=
+  match ops with [] => l | p :: r => lrun c (fst (lstep c l p)) r end.
